@@ -30,7 +30,9 @@ PROBE_PAIRS = [
 STORE = {"http://ex.test/a/t.json": {"type": "string"}, "t.json": {"type": "integer"}}
 OVERRIDABLE = ["minimum", "maxLength", "minLength", "type", "enum", "marker", "required", "const"]
 OPS = ["redefine", "redefine_many", "remove", "extend_none", "extend_override", "extend_add", "extend_types",
-       "extend_wrap", "create", "create_versioned", "instance_types", "checks", "cls_checks", "fc_new", "fc_subset"]
+       "extend_wrap", "create", "create_versioned", "instance_types", "checks", "cls_checks", "fc_new", "fc_subset",
+       "retype_core"]
+CORE_TYPE_NAMES = ["number", "object", "array", "string", "integer"]
 
 
 @st.composite
@@ -39,7 +41,8 @@ def cases(draw):
     for _ in range(draw(st.integers(2, 14))):
         op = draw(st.sampled_from(OPS))
         steps.append({"op": op, "on": draw(st.integers(0, 30)),
-                      "name": draw(st.sampled_from(SAFE_TYPE_NAMES if op in ("redefine", "redefine_many", "remove", "instance_types")
+                      "name": draw(st.sampled_from(CORE_TYPE_NAMES if op == "retype_core"
+                                                   else SAFE_TYPE_NAMES if op in ("redefine", "redefine_many", "remove", "instance_types")
                                                    else FORMAT_NAMES if op in ("checks", "cls_checks", "fc_subset")
                                                    else OVERRIDABLE)),
                       "flavour": draw(st.integers(0, 3))})
@@ -285,6 +288,37 @@ class C16(Prop):
                                      "%s: probe indices %r (type %r): got %r, model %r" % (
                                          desc, idx, TYPE_NAMES[idx[0] // len(TYPE_VALUES)], got[idx[0]], want[idx[0]]))
                         parents[id(tc)] = parents.get(id(tc), 0) + 1
+                elif op == "retype_core":
+                    # one of the names the keyword functions themselves rely on is redefined or removed on a DERIVED
+                    # checker; the result is only asked questions directly (never handed to a class: that would be
+                    # misuse) -- every other name must answer as before
+                    if name not in CORE_TYPE_NAMES:
+                        res.excluded = "malformed-step"
+                        return
+                    tc = w.pick("tc", on)
+                    pvec = [o[3] for o in w.objs if o[1] is tc][0]
+                    if fl == 3:
+                        changes = {name: None}
+                        try:
+                            new = tc.remove(name)
+                        except impl.exceptions.UndefinedTypeCheck:
+                            new = None
+                    else:
+                        changes = {name: _tf(fl)}
+                        new = tc.redefine(name, changes[name])
+                    if new is not None:
+                        want = expected_typechecker(pvec, changes)
+                        try:
+                            got = probe_typechecker(new)
+                        except Exception as e:
+                            res.fail(("derived-typechecker-raises", impl.tname(e)), "%s: %r" % (desc, e))
+                            got = want
+                        if got != want:
+                            idx = [i for i, (a, b) in enumerate(zip(got, want)) if a != b][:3]
+                            res.fail(("derived-typechecker-differs-from-model", op),
+                                     "%s: type %r value %r: got %r, model %r" % (
+                                         desc, TYPE_NAMES[idx[0] // len(TYPE_VALUES)], TYPE_VALUES[idx[0] % len(TYPE_VALUES)],
+                                         got[idx[0]], want[idx[0]]))
                 elif op == "extend_none":
                     c = w.pick("cls", on)
                     e = w.add("cls", V.extend(c), desc)
@@ -366,6 +400,22 @@ class C16(Prop):
                                      desc, TYPE_NAMES[i // len(TYPE_VALUES)], TYPE_VALUES[i % len(TYPE_VALUES)],
                                      got_tc[i], want_tc[i]))
                     w.add("val", v, desc)
+                    # the mapping holds for the whole validation, also where a keyword asks "valid or not"
+                    tname_ = "custom" if name not in ("integer", "string") else name
+                    stock = dict((k, set(id(cc.VALIDATORS.get(k)) for cc in impl.CLS.values())) for k in ("type", "not", "disallow"))
+                    untouched = all(k not in c.VALIDATORS or id(c.VALIDATORS[k]) in stock[k] for k in stock)
+                    for val in ((1, 1.0, "a", None, [], True) if untouched else ()):     # histories may have overridden `type`
+                        direct = bool(v.is_type(val, tname_))
+                        for wname, mk in ((("not", lambda t: {"not": {"type": t}}),) if "not" in c.VALIDATORS else
+                                          (("disallow", lambda t: {"disallow": [{"type": t}]}),) if "disallow" in c.VALIDATORS else ()):
+                            try:
+                                neg = c(mk(tname_), types=tmap).is_valid(val)
+                            except Exception as e:
+                                res.fail(("types-argument-under-verdict-keyword-raises", impl.tname(e)), "%s: %r" % (desc, e))
+                                break
+                            if neg != (not direct):
+                                res.fail(("types-argument-not-honoured-under-verdict-keyword", wname),
+                                         "%s: is_type(%r, %r)=%r but {%s: type} is_valid=%r" % (desc, val, tname_, direct, wname, neg))
                 elif op == "checks":
                     fc = w.pick("fc", on)
                     # registering on an instance changes THAT instance: re-record it, nobody else may change
